@@ -413,8 +413,11 @@ def run_query(q, tier, workroot, kf_open, keep=False):
         if not ok:
             res.update(verdict="build-error", detail=log[-4000:])
             return res
-        timeout = q.timeout or (240 if tier == "quick" else 1800)
-        mem = q.mem_gb or (4 if tier == "quick" else 10)
+        # caps are generous on purpose: a query that normally takes a minute must not turn into an INCONCLUSIVE (exit 2)
+        # merely because the machine is shared with other checks; VERIF_TIMEOUT_SCALE stretches them further
+        scale = float(os.environ.get("VERIF_TIMEOUT_SCALE", "1"))
+        timeout = int(max(q.timeout or 0, 900 if tier == "quick" else 3600) * scale)
+        mem = max(q.mem_gb or 0, 6 if tier == "quick" else 10)
         cmd = cbmc_cmd(q, wd)
         res["cmd"] = " ".join(cmd[2:])
         rc, out, err, to, dt = sh(cmd, timeout=timeout, mem_gb=mem)
